@@ -45,6 +45,20 @@ Theorem no_slot_read_before_written : forall P combine k (l : list (source P)) s
 Proof. exact chunked_grab_no_panic. Qed.
 Print Assumptions no_slot_read_before_written.
 
+(* ---- the transport shared by the fetches of one run keeps no per-request state ---- *)
+(* a request's TLS outcome is that of the same request on a fresh transport, whatever went before *)
+Theorem transport_outcome_history_free : forall W (rs : list (W * tr_req)) st,
+  tr_run st rs = map (fun wr => (fst wr, snd (tr_round_trip TrFresh (snd wr)))) rs.
+Proof. exact (@tr_run_history_free). Qed.
+Print Assumptions transport_outcome_history_free.
+
+(* so it is the same in every order in which the concurrent fetches reach the transport *)
+Theorem transport_outcome_order_free : forall W (rs rs' : list (W * tr_req)) st st' w r,
+  In (w, r) rs -> In (w, r) rs' ->
+  exists ok, In (w, ok) (tr_run st rs) /\ In (w, ok) (tr_run st' rs') /\ ok = snd (tr_round_trip TrFresh r).
+Proof. exact (@tr_run_order_free). Qed.
+Print Assumptions transport_outcome_order_free.
+
 (* ---- what is merged, under the named laws of combineProfiles ----
    ASSUMPTIONS about combineProfiles (hypotheses of the four theorems below), to be discharged by the
    C03/C07 merge model; they are PROVED for the toy instance the case runner executes (see the
@@ -143,6 +157,14 @@ Proof. exact perm_covers. Qed.
 (* completion orders exist: command-line order, its reverse, anything that contains one *)
 Example covers_examples : covers 3 [0; 1; 2] /\ covers 3 [2; 0; 1] /\ covers 3 [1; 1; 2; 0; 2].
 Proof. repeat split; intros j H; (destruct j as [|[|[|j]]]; [simpl; tauto|simpl; tauto|simpl; tauto|lia]). Qed.
+
+(* the three TLS policies of one run: plain https needs a trusted certificate, https+insecure does not *)
+Example transport_example :
+  tr_run TrFresh [(1%Z, {| rq_scheme := "https+insecure"; rq_trusted := false |});
+                  (2%Z, {| rq_scheme := "https"; rq_trusted := false |});
+                  (3%Z, {| rq_scheme := "https"; rq_trusted := true |})]
+  = [(1%Z, true); (2%Z, false); (3%Z, true)].
+Proof. reflexivity. Qed.
 
 (* a concrete run: three sources, the middle one fails, completion order 2,0,1 *)
 Definition ex_src (a : string) (ok : bool) (k : string) (v : Z) : source tprof :=
